@@ -451,10 +451,42 @@ func (o *Once) Do(f func()) {
 type (
 	Locker    = sync.Locker
 	Map       = sync.Map
-	Pool      = sync.Pool
 	WaitGroup = sync.WaitGroup
 	Cond      = sync.Cond
 )
+
+// Pool mirrors sync.Pool with ONE deterministic behaviour out of those the real pool may show: a
+// LIFO free list that never drops an item. (The real pool's per-P caches and GC-driven eviction are
+// nondeterminism the scheduler cannot own; a recorded schedule would no longer replay.)
+type Pool struct {
+	New   func() any
+	mu    sync.Mutex
+	items []any
+}
+
+func (p *Pool) Get() any {
+	p.mu.Lock()
+	if n := len(p.items); n > 0 {
+		x := p.items[n-1]
+		p.items = p.items[:n-1]
+		p.mu.Unlock()
+		return x
+	}
+	p.mu.Unlock()
+	if p.New != nil {
+		return p.New()
+	}
+	return nil
+}
+
+func (p *Pool) Put(x any) {
+	if x == nil {
+		return
+	}
+	p.mu.Lock()
+	p.items = append(p.items, x)
+	p.mu.Unlock()
+}
 
 func NewCond(l Locker) *Cond { return sync.NewCond(l) }
 
